@@ -1154,6 +1154,10 @@ func genC29(r *simrt.Rand, tier string) any {
 		for k, n := 0, 1+r.Int(2); k < n; k++ {
 			sc.Stalls = append(sc.Stalls, simfs.Fault{Op: []string{"Stat", "Lstat", "OpenFile", "File.Sync", "Chtimes", "Remove", "Rename", "Create", "File.Close", "Chmod"}[r.Int(10)], Nth: 1 + r.Int(8), Kind: "eio"})
 		}
+		if r.Pct(25) {
+			// the backend's directory read breaks off half-way: some entries AND an error
+			sc.Stalls = append(sc.Stalls, simfs.Fault{Op: "File.Readdir", Nth: 1 + r.Int(4), Kind: "short", Short: r.Int(3)})
+		}
 	}
 	if r.Pct(40) {
 		for k := 0; k < 1+r.Int(2); k++ {
